@@ -245,6 +245,16 @@ fn matcha_alternation(q: PTerm) -> PGoal {
     })
 }
 
+fn conda_bare_true(q: PTerm) -> PGoal {
+    // a bare `true` as the default clause
+    proto_vulcan!(|x| { x == 2, conda { [x == 1, q == 5], true }, q == 7 })
+}
+
+fn condu_leading_true(q: PTerm) -> PGoal {
+    // a bare `true` as the first clause commits at once
+    proto_vulcan!([condu { true, q == 9 }, q == 1])
+}
+
 fn condu_bracketed_head(q: PTerm) -> PGoal {
     // the head of the clause is the whole inner bracket
     proto_vulcan!(|x| {
@@ -360,6 +370,34 @@ fn closure_relation(q: PTerm) -> PGoal {
         })
     }
     pick_or_zero(lterm!([3, 2, 1]), q)
+}
+
+/// Recursion delayed by the `closure { .. }` operator, the recursive call written as a path
+/// expression: the body must be built when the closure is solved, not when it is constructed
+/// (constructing it eagerly recurses without bound whatever the list is).
+fn walk_list(l: PTerm, out: PTerm) -> PGoal {
+    proto_vulcan!(match l {
+        [] => out == 0,
+        [h | t] => conde { out == h, closure { self::walk_list(t.clone(), out.clone()) } },
+    })
+}
+
+fn closure_path_call(q: PTerm) -> PGoal {
+    walk_list(lterm!([3, 2, 1]), q)
+}
+
+fn closure_macro_path_call(q: PTerm) -> PGoal {
+    fn inner(l: PTerm, out: PTerm) -> PGoal {
+        proto_vulcan!(match l {
+            [] => out == 0,
+            [h | t] => conde { out == h, walk_list_lazy(t, out) },
+        })
+    }
+    inner(lterm!([5, 4]), q)
+}
+
+fn walk_list_lazy(l: PTerm, out: PTerm) -> PGoal {
+    proto_vulcan_closure!(self::walk_list(l.clone(), out.clone()))
 }
 
 fn fresh_five_goals(q: PTerm) -> PGoal {
@@ -492,6 +530,10 @@ pub fn corpus() -> Vec<Entry> {
         e("match-three-terms", "C06", false, match_three_terms, &[1, 1, 9]),
         e("match-nested-pattern", "C06", false, match_nested_pattern, &[0, 1, 2, 3, 4]),
         e("closure-relation", "C06", false, closure_relation, &[0, 1, 2, 3]),
+        e("closure-path-call", "C06", false, closure_path_call, &[0, 1, 2, 3]),
+        e("closure-macro-path-call", "C06", false, closure_macro_path_call, &[0, 4, 5]),
+        e("conda-bare-true-clauses", "C08", false, conda_bare_true, &[7]),
+        e("condu-leading-true-clause", "C08", false, condu_leading_true, &[1]),
         e("fresh-five-goals", "C06", false, fresh_five_goals, &[1, 2, 3, 4]),
         e("operator-then-goals", "C06", false, operator_then_goals, &[1, 3]),
         e("onceo-in-conde", "C08", false, onceo_in_conde, &[1, 7]),
